@@ -74,8 +74,8 @@ Print Assumptions C02_fragment_balanced_partial.
    unclosed, mismatched or stray .Ed/.Em lines are reported by the model and the output still balances *)
 Require FragB.
 Theorem C02_blocks_balanced_partial : forall fuel wd main bs, Forall FragB.in_frag bs ->
-  let s := snd (compile fuel (R "xhtml") 0 wd main bs) in
-  panicked s = None ->
+  let s := snd (compile (S fuel) (R "xhtml") 0 wd main bs) in
+  panicked s = None /\
   Tok.run (flat (wout s)) (Tok.Txt, []) = (Tok.Txt, []) /\ In (curfile s, flat (wout s)) (files s).
 Proof. exact FragB.C02_blocks_balanced. Qed.
 Print Assumptions C02_blocks_balanced_partial.
